@@ -337,12 +337,12 @@ fn structural_cases(text: &str, out: &mut Vec<Case>) {
         let s2 = splice(&s1, a.name.1, 0, " xml:id=\"dupid\"");
         push("duplicate-xml-id-two-elements", s2, Expect::Reject);
         // xml:id values are normalised before they are compared
-        for (va, vb) in [("dupid", " dupid"), (" dupid", "dupid "), ("dup id", "dup   id"), ("dupid", "&#32;dupid"), (" dupid", " dupid")] {
+        for (va, vb) in [("dupid", " dupid"), (" dupid", "dupid "), ("dup id", "dup   id"), ("dupid", "&#32;dupid"), (" dupid", " dupid"), ("", ""), (" ", ""), ("\t", "  "), ("é1", "é1"), (" é\u{1F600}", "é\u{1F600} ")] {
             let s1 = splice(text, b.name.1, 0, &format!(" xml:id=\"{}\"", vb));
             let s2 = splice(&s1, a.name.1, 0, &format!(" xml:id=\"{}\"", va));
             push("duplicate-xml-id-after-normalisation", s2, Expect::Reject);
         }
-        for (va, vb) in [("ida", "idb"), ("id a", "ida"), ("x", " y ")] {
+        for (va, vb) in [("ida", "idb"), ("id a", "ida"), ("x", " y "), ("", "x"), ("é1", "e1")] {
             let s1 = splice(text, b.name.1, 0, &format!(" xml:id=\"{}\"", vb));
             let s2 = splice(&s1, a.name.1, 0, &format!(" xml:id=\"{}\"", va));
             push("distinct-xml-ids", s2, Expect::Accept);
